@@ -956,7 +956,17 @@ def _bag_equal(interp, args, kwargs, node):
     for src, dst in ((ba, bb), (bb, ba)):
         for s in src.sites:
             s2 = s.rename(interp.ctx)
-            body = z3.Implies(s2.full_cond(), bag_contains(interp, dst, s2.elem))
+            # candidate witness: the same generator variables in a site of the other bag with matching variable sorts
+            # (an explicit instance of the existential; equivalent formula)
+            insts = []
+            for t in dst.sites:
+                if len(t.bvars) == len(s2.bvars) and all(x.sort() == y.sort() for x, y in zip(t.bvars, s2.bvars)):
+                    t2 = t.rename(interp.ctx)
+                    sub = list(zip(t2.bvars, s2.bvars))
+                    inst = Site(t2.label, [], z3.substitute(t2.cond, *sub), vsubst(t2.elem, sub), t2.hvars,
+                                z3.substitute(t2.cond_h, *sub), z3.substitute(t2.cond_d, *sub))
+                    insts.append(inst.exists_body(interp.veq(inst.elem, s2.elem)))
+            body = z3.Implies(s2.full_cond(), z3.Or(*(insts + [bag_contains(interp, dst, s2.elem)])))
             parts.append(z3.ForAll(s2.all_vars(), body) if s2.all_vars() else body)
     return VBool(z3.And(*parts) if parts else z3.BoolVal(True))
 
